@@ -11,16 +11,16 @@ open TF TF.Engine TF.Spec TF.Frontend
 
 mutual
 /-- The table `FK` has the keys of every fold of the component, at every depth. -/
-def FKAllC (W : World) : Component → Prop
-  | .mk _ _ _ folds _ => FKAllF W folds
-def FKAllF (W : World) : List Fold → Prop
+def FKAllC (FK : Eid → List (Eid × Name)) : Component → Prop
+  | .mk _ _ _ folds _ => FKAllF FK folds
+def FKAllF (FK : Eid → List (Eid × Name)) : List Fold → Prop
   | [] => True
   | .mk e fr to n ps comp imp fo post :: rest =>
-    W.FK e = foldKeys (.mk e fr to n ps comp imp fo post) ∧ FKAllC W comp ∧ FKAllF W rest
+    FK e = foldKeys (.mk e fr to n ps comp imp fo post) ∧ FKAllC FK comp ∧ FKAllF FK rest
 end
 
-theorem FKAllF_mem {W : World} {fs : List Fold} (h : FKAllF W fs) {f : Fold} (hf : f ∈ fs) :
-    W.FK f.eid = foldKeys f ∧ FKAllF W f.component.folds := by
+theorem FKAllF_mem {FK : Eid → List (Eid × Name)} {fs : List Fold} (h : FKAllF FK fs) {f : Fold}
+    (hf : f ∈ fs) : FK f.eid = foldKeys f ∧ FKAllF FK f.component.folds := by
   induction fs with
   | nil => cases hf
   | cons g rest ih =>
